@@ -52,6 +52,10 @@ type specv struct {
 	subset   []int // nil = no subset
 	also     []int // further disabled endpoints (two at once, all of them)
 	spelled  bool  // enabled servers carry an explicit disabled=false
+	// twice > 0: endpoint twice-1 is listed in two entries (validation accepts that), one with disabled: true and one
+	// without - the disabled one first or last. An endpoint the list marks disabled anywhere is disabled.
+	twice         int
+	disabledFirst bool
 }
 
 func (s specv) String() string {
@@ -62,21 +66,41 @@ func (s specv) String() string {
 	if s.spelled {
 		x += " flag-spelled-out"
 	}
+	if s.twice > 0 {
+		x += fmt.Sprintf(" endpoint-%d-listed-twice(disabled entry first=%v)", s.twice-1, s.disabledFirst)
+	}
 	return x
 }
 
-func (s specv) dis(i int) bool { return i >= 0 && (i == s.disabled || has(s.also, i)) }
+func (s specv) dis(i int) bool {
+	return i >= 0 && (i == s.disabled || has(s.also, i) || (s.twice > 0 && i == s.twice-1))
+}
 
 func (s specv) object() *proxyv1alpha1.UpstreamCluster {
 	var servers []proxyv1alpha1.UpstreamClusterServer
 	t := true
 	for _, i := range s.servers {
 		sv := proxyv1alpha1.UpstreamClusterServer{Endpoint: ep(i)}
+		if s.twice > 0 && i == s.twice-1 {
+			// the second entry for this endpoint goes to the end of the list
+			if s.disabledFirst {
+				sv.Disabled = &t
+			}
+			servers = append(servers, sv)
+			continue
+		}
 		if s.dis(i) {
 			sv.Disabled = &t
 		} else if s.spelled {
 			no := false
 			sv.Disabled = &no
+		}
+		servers = append(servers, sv)
+	}
+	if s.twice > 0 {
+		sv := proxyv1alpha1.UpstreamClusterServer{Endpoint: ep(s.twice - 1)}
+		if !s.disabledFirst {
+			sv.Disabled = &t
 		}
 		servers = append(servers, sv)
 	}
@@ -117,6 +141,10 @@ func allSpecs() []specv {
 	// shapes of "disabled": two at once, all of them, and the flag spelled out as false on the enabled ones
 	out = append(out, specv{servers: []int{0, 1}, disabled: 0, also: []int{1}}, specv{servers: []int{0, 1, 2}, disabled: 0, also: []int{1}}, specv{servers: []int{0, 1, 2}, disabled: 1, also: []int{2}, subset: []int{0, 1}},
 		specv{servers: []int{0, 1, 2}, disabled: 0, also: []int{1, 2}}, specv{servers: []int{0, 1}, disabled: -1, spelled: true}, specv{servers: []int{0, 1, 2}, disabled: 1, spelled: true, subset: []int{0, 1}})
+	// an endpoint listed twice, disabled in one of its entries
+	for _, first := range []bool{true, false} {
+		out = append(out, specv{servers: []int{0, 1}, disabled: -1, twice: 1, disabledFirst: first}, specv{servers: []int{0, 1, 2}, disabled: -1, twice: 2, disabledFirst: first, subset: []int{0, 1}})
+	}
 	return out
 }
 
